@@ -22,6 +22,7 @@ import (
 	myraft "github.com/feichai0017/NoKV/raft"
 	"github.com/feichai0017/NoKV/raftstore"
 	"github.com/feichai0017/NoKV/raftstore/store"
+	"github.com/feichai0017/NoKV/vfs"
 	"google.golang.org/grpc/status"
 
 	"verif/harness/hlib"
@@ -649,6 +650,9 @@ func (e *catEngine) Gen(r *hlib.Rand, tier string) []string {
 			probe()
 		case x < 86:
 			ops = append(ops, fmt.Sprintf("cat.state %d %d", 1+r.Intn(nextID), r.Intn(5)))
+			if r.Chance(40) { // a tombstoned/removing region must survive a manifest rewrite + restart
+				ops = append(ops, "cat.rewrite", "cat.reopen")
+			}
 		case x < 93:
 			ops = append(ops, "cat.reopen", "cat.snap")
 		default:
@@ -656,6 +660,16 @@ func (e *catEngine) Gen(r *hlib.Rand, tier string) []string {
 		}
 	}
 	ops = append(ops, "cat.snap")
+	// a share of the mutating operations runs with a failing manifest append
+	for i, op := range ops {
+		if (strings.HasPrefix(op, "cat.split ") || strings.HasPrefix(op, "cat.merge ") || strings.HasPrefix(op, "cat.state ") ||
+			strings.HasPrefix(op, "cat.remove ")) && r.Chance(12) {
+			ops[i] = "cat.iofail " + op
+		}
+	}
+	if r.Chance(30) {
+		ops = append(ops, "cat.rewrite", "cat.reopen", "cat.snap")
+	}
 	return ops
 }
 
@@ -720,8 +734,16 @@ func (e *catEngine) Exec(ops []string) []string {
 	const storeID = 7
 	var mgr *manifest.Manager
 	var rs *store.Store
+	armed := false // one-shot: the next write to the manifest file fails
+	ffs := vfs.NewFaultFS(vfs.OSFS{}, func(op vfs.Op, path string) error {
+		if armed && op == vfs.OpFileWrite && strings.Contains(path, "MANIFEST-") {
+			armed = false
+			return fmt.Errorf("verif: injected manifest write failure")
+		}
+		return nil
+	})
 	open := func() {
-		mgr, err = manifest.Open(dir, nil)
+		mgr, err = manifest.Open(dir, ffs)
 		if err != nil {
 			panic(err)
 		}
@@ -740,6 +762,13 @@ func (e *catEngine) Exec(ops []string) []string {
 	out := make([]string, len(ops))
 	for i, op := range ops {
 		f := strings.Fields(op)
+		armed = false
+		if f[0] == "cat.iofail" && len(f) > 1 {
+			// the wrapped operation runs with the next manifest write failing once; it must
+			// report an error and leave the catalog (memory and manifest) untouched
+			armed = true
+			f = f[1:]
+		}
 		switch f[0] {
 		case "cat.init":
 			for _, ms := range strings.Split(f[1], ";") {
@@ -809,6 +838,8 @@ func (e *catEngine) Exec(ops []string) []string {
 			} else {
 				out[i] = strings.Join(parts, ";")
 			}
+		case "cat.rewrite":
+			out[i] = okErr(mgr.Rewrite())
 		case "cat.probe":
 			k := hlib.UnHex(f[1])
 			n := 0
